@@ -450,8 +450,8 @@ simple(LP_ := "dataiter/list_of_dicts.py::ListOfDicts.rename[new=old pairs, also
        lambda run: ((l, i) for l in lists(maxlen(run)) for i in range(len(_RENAMES))),
        lambda d, i: d.rename(**_RENAMES[i]), lambda l, i: _rename(l, _RENAMES[i]), B)
 simple("dataiter/list_of_dicts.py::ListOfDicts.__mul__",
-       lambda run: ((l, n) for l in lists(maxlen(run)) for n in (0, 1, 2, 3)),
-       lambda d, n: d * n, lambda l, n: l * n, B)
+       lambda run: ((l, n) for l in lists(maxlen(run)) for n in (0, 1, 2, 3, -1, -2, -3)),
+       lambda d, n: d * n if n >= 0 else (-n) * d, lambda l, n: l * abs(n), B)          # negative n encodes the reflected form  n * d
 simple("dataiter/list_of_dicts.py::ListOfDicts.unique[no keys: whole items]",
        lambda run: ((l,) for l in full_lists(maxlen(run))),
        lambda d: d.unique(), lambda l: [x for i, x in enumerate(l) if x not in l[:i]], B)
@@ -632,12 +632,12 @@ lod_join_driver(LP + "full_join[renamed key]", "full", renamed=True)
 @driver(LP + "full_join[full_join + aggregate: bounded only]")
 def lod_aggregate_driver(run):
     ml_ = 4 if run.tier == "thorough" else 3
-    run.bound = f"lists of <= {ml_} items with group keys g in {{None,0,1}} x h in {{0,1}}; group by g and by (g,h); summaries n, list of p, first p"
+    run.bound = f"lists of <= {ml_} items with group keys g in {{None,0,1}} x h in {{0,1}}; group by g, by (g,h) and by (h,g); summaries n, list of p, first p"
     vals = [{"g": g, "h": h} for g in KEYV for h in (0, 1)]
     def gen():
         for n in range(ml_ + 1):
             for combo in itertools.product(range(len(vals)), repeat=n):
-                for by in (("g",), ("g", "h")):
+                for by in (("g",), ("g", "h"), ("h", "g")):
                     yield [dict(vals[c], p=i) for i, c in enumerate(combo)], list(by)
     for l, by in run.inputs(gen()):
         data = mk(l)
@@ -653,3 +653,46 @@ def lod_aggregate_driver(run):
                     ps=[x["p"] for x in l if tuple(x[b] for b in by) == k],
                     first=[x["p"] for x in l if tuple(x[b] for b in by) == k][0]) for k in keys]
         run.check([l, by], plain(got) == exp and plain(data) == before, expected=exp, got=plain(got), clause="aggregate")
+
+
+# ---- joins on TWO keys (one same-named, one renamed): relational definition on (k, h) pairs -------------------------------
+@driver(LP + "left_join[two keys, the second named differently]")
+def lod_join_two_keys(run):
+    run.bound = "pairs of lists of <= 2 items, keys k in {None, 0} x h in {0, 1} (right: k, h2); left / inner / semi / anti / full join"
+    vals = [(None, 0), (0, 0), (0, 1)]
+    gen = ((list(a), list(b)) for n1 in range(3) for n2 in range(3) for a in itertools.product(range(3), repeat=n1) for b in itertools.product(range(3), repeat=n2))
+    for ia, ib in run.inputs(gen):
+        a = [{"k": vals[i][0], "h": vals[i][1], "p": t} for t, i in enumerate(ia)]
+        b = [{"k": vals[i][0], "h2": vals[i][1], "q": 100 + t} for t, i in enumerate(ib)]
+        by = ("k", ("h", "h2"))
+
+        def first(x):
+            for j, y in enumerate(b):
+                if y["k"] == x["k"] and y["h2"] == x["h"]:
+                    return j
+            return None
+        m = [first(x) for x in a]
+        try:
+            import contextlib
+            with contextlib.redirect_stdout(io.StringIO()):
+                A, Bl = mk(a), mk(b)
+                left = plain(A.left_join(Bl, *by))
+                exp_left = [dict(x, **({"q": b[m[i]]["q"]} if m[i] is not None else {})) for i, x in enumerate(a)]
+                ok = left == exp_left and plain(Bl) == b
+                A, Bl = mk(a), mk(b)
+                ok = ok and plain(A.inner_join(Bl, *by)) == [e for e, mm in zip(exp_left, m) if mm is not None]
+                A, Bl = mk(a), mk(b)
+                ok = ok and plain(A.semi_join(Bl, *by)) == [x for x, mm in zip(a, m) if mm is not None] and plain(A) == a
+                ok = ok and plain(A.anti_join(Bl, *by)) == [x for x, mm in zip(a, m) if mm is None] and plain(A) == a
+                full = plain(mk(a).full_join(mk(b), *by))
+                ok = ok and all(any(g.get("p") == x["p"] for g in full) for x in a) and all(any(g.get("q") == y["q"] for g in full) for y in b)
+                for g in full:
+                    if g.get("p") is not None and g.get("q") is not None and "p" in g and "q" in g:
+                        x = [x for x in a if x["p"] == g["p"]]
+                        y = [y for y in b if y["q"] == g["q"]]
+                        if x and y and isinstance(g["p"], int) and g["p"] < 100 and g["q"] >= 100:
+                            ok = ok and x[0]["k"] == y[0]["k"] and x[0]["h"] == y[0]["h2"]
+            obs = left
+        except Exception as e:
+            ok, obs = False, f"raised {type(e).__name__}: {e}"
+        run.check([ia, ib], ok, expected=f"first matches {m}", got=obs, clause="joins on two keys follow the relational definition")
